@@ -609,7 +609,7 @@ Ltac keep_arith :=
   | H : ?T |- _ =>
       lazymatch T with
       | (_ < _)%N => fail | (_ <= _)%N => fail | (_ < _)%nat => fail | (_ <= _)%nat => fail
-      | @eq N _ _ => fail | @eq nat _ _ => fail | (_ <> _) => fail | (_ \/ _) => fail
+      | @eq N _ _ => fail | @eq nat _ _ => fail | (_ <> _) => fail | (_ \/ _) => fail | (_ /\ _) => fail
       | _ => clear H
       end
   end.
@@ -2247,4 +2247,733 @@ Proof.
     unfold haskey. autorewrite with bst. apply (m_keys _ _ _ M5). flia.
   - intros k' e' b Hp. apply placed_add_stmt_mono. autorewrite with plc. apply Pm. unfold s4. autorewrite with plc.
     apply placed_add_stmt_mono. autorewrite with plc. exact Hp.
+Qed.
+
+(* ---- exception handlers: block [hb_i] (labelled [L], created by the try statement) holds handler [i] ---- *)
+Definition H_out (s : st) (hbs : list N) (nxt : N) (l : lam) (L : bool) (a : arms) (s' : st) (l' : lam) : Prop :=
+  let ra := flow_arms L a in
+  agree (next s) l l' /\ mid anyb s s' /\ loops s' = loops s /\ excs s' = excs s /\ klt s' /\ next s <= next s' /\
+  (cur s' < next s') /\
+  ((L = true -> ctx_ok l s) -> (rk ra = true -> brk_ok l s) -> (rn ra = true -> l nxt = true) ->
+     closed l (edges s) -> closed l' (edges s')) /\
+  (forall E, incl (edges s') E -> (forall h, In h hbs -> L = true -> reach E h) ->
+     (forall b0, next s <= b0 -> b0 < next s' -> l' b0 = true -> reach E b0) /\
+     (rn ra = true -> reach E nxt) /\
+     (rk ra = true -> noproc s -> forall t0, brk_t s = Some t0 -> reach E t0)) /\
+  (forall k e b0, placed s' k e b0 -> placed s k e b0 \/ k = 0 \/ (In (k, l' b0) (rmarks ra) /\ In (k, e) (spans_arms a))) /\
+  (forall k m, In (k, m) (rmarks ra) -> In k (elif_arms a) \/ exists e b0, placed s' k e b0 /\ l' b0 = m) /\
+  (forall k e b0, placed s k e b0 -> placed s' k e b0).
+
+Definition S_handlers (a : arms) : Prop := forall s hbs nxt l L inl,
+  inv s -> length hbs = arms_length a ->
+  (forall h, In h hbs -> h < next s /\ l h = L /\
+     forall x f, In x (excs s) -> x_processing x = false -> x_finally x = Some f -> f <> h) ->
+  nxt < next s -> lok_arms inl a = true -> (inl = true -> loops s <> []) ->
+  exists l', H_out s hbs nxt l L a (process_handlers' s a hbs nxt) l'.
+
+Lemma S_handlers_nil : S_handlers ANil.
+Proof.
+  intros s hbs nxt l L inl I _ _ Hn _ _. exists l. unfold H_out. cbn.
+  split; [apply agree_refl|]. split; [apply mid_refl_b, I|]. split; [reflexivity|]. split; [reflexivity|].
+  split; [exact (i_klt _ I)|]. split; [flia|]. split; [exact (i_cur _ I)|]. split; [intros _ _ _ C; exact C|]. split; [|split; [|split]].
+  - intros E HE HR. split; [intros b0 H1 H2; flia|]. split; discriminate.
+  - intros k e b0 Hp. left. exact Hp.
+  - intros k m [].
+  - intros k e b0 Hp. exact Hp.
+Qed.
+
+Lemma S_handlers_cons k b r : S_block b -> S_handlers r -> S_handlers (ACons k b r).
+Proof.
+  intros Sb Sr s hbs nxt l L inl I Hlen Hh Hnx Hlok Hinl. cbn [lok_arms] in Hlok. apply andb_true_iff in Hlok. destruct Hlok as (Hlok1 & Hlok2).
+  destruct hbs as [|hb hbr]; [discriminate|]. cbn [length arms_length] in Hlen. injection Hlen as Hlen.
+  destruct (Hh hb (or_introl eq_refl)) as (Hb1 & Hb2 & Hb3).
+  cbn beta iota delta [process_handlers'] fix match. peel_all ident:(p). bsimp.
+  pose proof (i_wfb _ I) as Wb. pose proof (i_cur _ I) as Hc. pose proof (wb_two _ Wb) as H2.
+  set (X := mk k (N.max k (end_block b)) KOther) in *.
+  set (t := add_stmt s hb X).
+  change (s2p = process_block' (set_cur t hb) b) in Es2p.
+  set (r1 := flow_block L b). set (r2 := flow_arms L r).
+  assert (Mt : mid anyb s t) by (apply mid_add_stmt, mid_refl_b; exact Wb).
+  assert (Kt : klt t) by (apply klt_add_stmt; exact (i_klt _ I)).
+  assert (It : inv (set_cur t hb)).
+  { split; [apply (wfb_mid anyb s); [apply mid_set_cur; exact Mt|exact Wb|reflexivity|reflexivity]|exact Hb1|exact Kt|exact Hb3]. }
+  destruct (S_branch0 s t hb l l inl b Sb I It eq_refl eq_refl (agree_refl _ _) Hlok1 Hinl) as (l2 & B).
+  rewrite <- Es2p in B. destruct B as (A2 & F & C & N2 & I2 & So & Co & Da & Db & Dc).
+  rewrite Hb2 in C, So, Co, Da, Db. fold r1 in C, So, Co, Da, Db.
+  assert (Nt : next t = next s) by reflexivity. rewrite Nt in *.
+  pose proof (lf_curlt _ _ F) as Hc2.
+  set (s3 := connect s2p (cur s2p) nxt ENormal) in *.
+  assert (I3 : inv s3) by (apply inv_connect; [exact I2|exact Hc2|flia]).
+  assert (L3 : loops s3 = loops s) by (unfold s3; autorewrite with bst; rewrite (lf_loops _ _ F); reflexivity).
+  assert (X3 : excs s3 = excs s) by (unfold s3; autorewrite with bst; rewrite (lf_excs _ _ F); reflexivity).
+  assert (N3 : next s3 = next s2p) by reflexivity.
+  destruct (Sr s3 hbr nxt l2 L inl I3 Hlen) as (l3 & HO); try assumption; try (rewrite N3; flia); [|rewrite L3; exact Hinl|].
+  { intros h Hin. destruct (Hh h (or_intror Hin)) as (Q1 & Q2 & Q3). rewrite N3. split; [flia|]. split; [rewrite (A2 h Q1); exact Q2|].
+    rewrite X3. exact Q3. }
+  set (s' := process_handlers' s3 r hbr nxt) in *.
+  destruct HO as (A3 & M' & L' & X' & K' & N' & C' & So' & Co' & Da' & Db' & Dc'). fold r2 in So', Co', Da', Db'.
+  rewrite N3 in *.
+  exists l3. unfold H_out. cbn [flow_arms rn rk rmarks spans_arms elif_arms]. fold r1 r2 X.
+  split; [intros b0 Hb0; lev; reflexivity|].
+  split; [|split; [congruence|split; [congruence|split; [exact K'|split; [flia|split; [exact C'|split; [|split; [|split; [|split]]]]]]]]].
+  - apply (mid_transA _ anyb s s3); [|exact M'|intros; left; exact Logic.I].
+    apply mid_connect; [|left; exact Logic.I|exact Hc2|flia].
+    apply (mid_transA _ anyb s (set_cur t hb)); [apply mid_set_cur; exact Mt|apply F|intros; left; exact Logic.I].
+  - intros Hctx Hb Hmg Cl. apply So'.
+    + intro HL. apply (ctx_ok_agree l l2 s); [apply Hctx; exact HL|exact I|exact A2|exact L3|exact X3].
+    + intro Hk. apply (brk_ok_agree l l2 s); [apply Hb; rewrite Hk; apply orb_true_r|exact I|exact A2|exact L3].
+    + intro Hn. lev. apply Hmg. rewrite Hn. apply orb_true_r.
+    + unfold s3. autorewrite with bst. rewrite closed_snoc. split.
+      * apply So; [exact Hctx|intro Hk; apply Hb; rewrite Hk; reflexivity|]. exact Cl.
+      * rewrite C. lev. intro Hn. apply Hmg. rewrite Hn. reflexivity.
+  - intros E HE HR.
+    assert (HE3 : incl (edges s3) E).
+    { destruct (m_edges _ _ _ M') as (D & ED & _). intros x Hx. apply HE. rewrite ED. apply in_or_app. left. exact Hx. }
+    assert (HE2 : incl (edges s2p) E) by (intros x Hx; apply HE3; unfold s3; autorewrite with bst; apply in_or_app; left; exact Hx).
+    destruct (Co E HE2 (HR hb (or_introl eq_refl))) as (P4 & P1 & P2 & P3).
+    destruct (Co' E HE (fun h Hin => HR h (or_intror Hin))) as (P4' & P1' & P2').
+    split; [|split].
+    + intros b0 H1 H2' H3. destruct (N.lt_ge_cases b0 (next s2p)) as [Hlt|Hge].
+      * apply P4; [exact H1|exact Hlt|]. lev_in H3. exact H3.
+      * apply P4'; [exact Hge|exact H2'|exact H3].
+    + intro Hn. apply orb_true_iff in Hn. destruct Hn as [Hn|Hn]; [|apply P1'; exact Hn].
+      eapply reach_step; [apply P1; exact Hn|]. apply HE3. unfold s3. autorewrite with bst. apply in_or_app. right. left. reflexivity.
+    + intros Hk Hnp t0 Ht0. apply orb_true_iff in Hk. destruct Hk as [Hk|Hk]; [apply (P2 Hk Hnp t0 Ht0)|].
+      apply (P2' Hk); [apply (noproc_eq s); assumption|rewrite (brk_t_eq s); assumption].
+  - intros k' e' b0 Hp. destruct (Da' k' e' b0 Hp) as [Hp0|[Hk|(Hm' & Hs)]].
+    + unfold s3 in Hp0. autorewrite with plc in Hp0. destruct (Da k' e' b0 Hp0) as [Hp1|[Hk|(Hm' & Hs)]].
+      * unfold t in Hp1. apply placed_add_stmt_inv in Hp1. destruct Hp1 as [Hp1|(-> & -> & ->)]; [left; exact Hp1|].
+        right. right. cbn [X mk b_start b_end]. split; [left|left; reflexivity]. lev. rewrite Hb2. reflexivity.
+      * right. left. exact Hk.
+      * right. right. split; [right; apply in_or_app; left|right; apply in_or_app; left; exact Hs].
+        assert (Hb0 : b0 < next s2p) by (apply (placed_lt s2p k' e'); assumption). lev. exact Hm'.
+    + right. left. exact Hk.
+    + right. right. split; [right; apply in_or_app; right; exact Hm'|right; apply in_or_app; right; exact Hs].
+  - intros k' m [Heq|Hin].
+    + inversion Heq; subst k' m. right. exists (N.max k (end_block b)), hb. split.
+      * apply Dc'. unfold s3. autorewrite with plc. apply Dc. autorewrite with plc. unfold t.
+        apply (placed_add_stmt_new s hb X). apply (wb_keys _ Wb). exact Hb1.
+      * lev. exact Hb2.
+    + apply in_app_or in Hin. destruct Hin as [Hin|Hin].
+      * destruct (Db k' m Hin) as [He|(e' & b0 & Hp & Hm')]; [left; apply in_or_app; left; exact He|].
+        right. exists e', b0. split; [apply Dc'; unfold s3; autorewrite with plc; exact Hp|].
+        assert (Hb0 : b0 < next s2p) by (apply (placed_lt s2p k' e'); assumption). lev. exact Hm'.
+      * destruct (Db' k' m Hin) as [He|H]; [left; apply in_or_app; right; exact He|right; exact H].
+  - intros k' e' b0 Hp. apply Dc'. unfold s3. autorewrite with plc. apply Dc. autorewrite with plc. unfold t.
+    apply placed_add_stmt_mono. exact Hp.
+Qed.
+
+(* ---- the propagation edges of a finally block ---- *)
+Lemma cu_in s a b t e : In e (edges (connect_unless s a b t)) -> In e (edges s) \/ e = (a, b, t).
+Proof.
+  unfold connect_unless. destruct (has_successor s a b); [left; assumption|]. cbn [connect edges]. intro H.
+  apply in_app_or in H. destruct H as [H|[H|[]]]; [left; exact H|right; symmetry; exact H].
+Qed.
+Lemma cu_incl s a b t : incl (edges s) (edges (connect_unless s a b t)).
+Proof. unfold connect_unless. destruct (has_successor s a b); [apply incl_refl|]. cbn [connect edges]. apply incl_appl, incl_refl. Qed.
+Lemma cu_has s a b t : exists t', In (a, b, t') (edges (connect_unless s a b t)).
+Proof.
+  unfold connect_unless. destruct (has_successor s a b) eqn:E.
+  - unfold has_successor in E. apply existsb_exists in E. destruct E as ([[f v] ty] & Hin & Hb).
+    apply andb_true_iff in Hb. destruct Hb as (Hf & Hv). apply N.eqb_eq in Hf. apply N.eqb_eq in Hv. subst. exists ty. exact Hin.
+  - exists t. cbn [connect edges]. apply in_or_app. right. left. reflexivity.
+Qed.
+Lemma cau_in s a l t e : In e (edges (connect_all_unless s a l t)) -> In e (edges s) \/ exists b, In b l /\ e = (a, b, t).
+Proof.
+  revert s. induction l as [|x r IH]; intros s H; [left; exact H|]. cbn [connect_all_unless] in H.
+  destruct (IH _ H) as [H'|(b & Hb & ->)].
+  - destruct (cu_in _ _ _ _ _ H') as [H''| ->]; [left; exact H''|right; exists x; split; [left; reflexivity|reflexivity]].
+  - right. exists b. split; [right; exact Hb|reflexivity].
+Qed.
+Lemma cau_incl s a l t : incl (edges s) (edges (connect_all_unless s a l t)).
+Proof.
+  revert s. induction l as [|x r IH]; intro s; [apply incl_refl|]. cbn [connect_all_unless].
+  eapply incl_tran; [apply cu_incl|apply IH].
+Qed.
+
+(* the blocks a finally block may propagate to *)
+Definition fin_tgt (t4 : st) (v : N) : Prop :=
+  v = exit_id \/
+  (exists x, In x (tl (excs t4)) /\ (x_finally x = Some v \/ In v (x_handlers x))) \/
+  (exists lp, hd_error (loops t4) = Some lp /\ (v = l_exit lp \/ v = l_header lp)).
+
+Lemma fin_prop_edges t4 f :
+  let t' := fin_prop t4 f in
+  (forall u v t, In (u, v, t) (edges t') -> In (u, v, t) (edges t4) \/ (u = f /\ fin_tgt t4 v)) /\
+  incl (edges t4) (edges t') /\
+  (exists ty, In (f, match first_finally (tl (excs t4)) with Some o => o | None => exit_id end, ty) (edges t')) /\
+  (forall lp, hd_error (loops t4) = Some lp -> (l_excdepth lp <= length (excs t4) - 1)%nat ->
+     exists ty, In (f, match first_finally (firstn (length (tl (excs t4)) - l_excdepth lp) (tl (excs t4))) with
+                       | Some o => o | None => l_exit lp end, ty) (edges t')).
+Proof.
+  unfold fin_prop. cbv zeta.
+  set (outer := tl (excs t4)).
+  set (ro := match first_finally outer with Some o => o | None => exit_id end).
+  set (t5 := match first_finally outer with
+             | Some o => connect_unless t4 f o EReturn
+             | None => connect_unless t4 f exit_id EReturn
+             end).
+  assert (E5 : t5 = connect_unless t4 f ro EReturn) by (unfold t5, ro; destruct (first_finally outer); reflexivity).
+  assert (Hro : fin_tgt t4 ro).
+  { unfold ro. destruct (first_finally outer) as [o|] eqn:Eo; [|left; reflexivity].
+    destruct (first_finally_in _ _ Eo) as (x & Hx & Hf). right. left. exists x. split; [exact Hx|left; exact Hf]. }
+  assert (L5 : loops t5 = loops t4) by (rewrite E5; apply cu_loops).
+  assert (X5 : excs t5 = excs t4) by (rewrite E5; apply cu_excs).
+  match goal with |- context [connect_unless ?t f _ EException] => set (t6 := t) end.
+  assert (H6 : (forall u v t, In (u, v, t) (edges t6) -> In (u, v, t) (edges t4) \/ (u = f /\ fin_tgt t4 v)) /\
+               incl (edges t5) (edges t6) /\
+               (forall lp, hd_error (loops t4) = Some lp -> (l_excdepth lp <= length (excs t4) - 1)%nat ->
+                 exists ty, In (f, match first_finally (firstn (length outer - l_excdepth lp) outer) with
+                                   | Some o => o | None => l_exit lp end, ty) (edges t6))).
+  { assert (B5 : forall u v t, In (u, v, t) (edges t5) -> In (u, v, t) (edges t4) \/ (u = f /\ fin_tgt t4 v)).
+    { intros u v t Hin. rewrite E5 in Hin. destruct (cu_in _ _ _ _ _ Hin) as [H|H]; [left; exact H|]. inversion H; subst. right. split; [reflexivity|exact Hro]. }
+    unfold t6. rewrite L5, X5. destruct (loops t4) as [|lp ls] eqn:El.
+    - split; [exact B5|]. split; [apply incl_refl|]. intros lp Hlp. discriminate.
+    - destruct (Nat.leb (l_excdepth lp) (length (excs t4) - 1)) eqn:Ele.
+      + set (bo := match first_finally (firstn (length outer - l_excdepth lp) outer) with Some o => o | None => l_exit lp end).
+        set (co := match first_finally (firstn (length outer - l_excdepth lp) outer) with Some o => o | None => l_header lp end).
+        assert (E6 : match first_finally (firstn (length outer - l_excdepth lp) outer) with
+                     | Some o => connect_unless (connect_unless t5 f o EBreak) f o EContinue
+                     | None => connect_unless (connect_unless t5 f (l_exit lp) EBreak) f (l_header lp) EContinue
+                     end = connect_unless (connect_unless t5 f bo EBreak) f co EContinue).
+        { unfold bo, co. destruct (first_finally (firstn (length outer - l_excdepth lp) outer)); reflexivity. }
+        rewrite E6.
+        assert (Hbo : fin_tgt t4 bo /\ fin_tgt t4 co).
+        { unfold bo, co. destruct (first_finally (firstn (length outer - l_excdepth lp) outer)) as [o|] eqn:Eo.
+          - destruct (first_finally_in _ _ Eo) as (x & Hx & Hf). apply firstn_in in Hx.
+            split; right; left; exists x; (split; [exact Hx|left; exact Hf]).
+          - split; right; right; exists lp; rewrite El; (split; [reflexivity|]); [left|right]; reflexivity. }
+        split; [|split].
+        * intros u v t Hin. destruct (cu_in _ _ _ _ _ Hin) as [H|H]; [|inversion H; subst; right; split; [reflexivity|apply Hbo]].
+          destruct (cu_in _ _ _ _ _ H) as [H'|H']; [apply B5; exact H'|inversion H'; subst; right; split; [reflexivity|apply Hbo]].
+        * eapply incl_tran; [apply cu_incl|apply cu_incl].
+        * intros lp' Hlp' _. cbn in Hlp'. inversion Hlp'; subst lp'. fold bo.
+          destruct (cu_has t5 f bo EBreak) as (ty & Hty). exists ty. apply cu_incl. exact Hty.
+      + split; [exact B5|]. split; [apply incl_refl|]. intros lp' Hlp' Hle. cbn in Hlp'. inversion Hlp'; subst lp'.
+        apply Nat.leb_gt in Ele. lia. }
+  destruct H6 as (B6 & I6 & K6). clearbody t6.
+  assert (Hret : exists ty, In (f, ro, ty) (edges t6)).
+  { destruct (cu_has t4 f ro EReturn) as (ty & Hty). exists ty. apply I6. rewrite E5. exact Hty. }
+  assert (I46 : incl (edges t4) (edges t6)) by (eapply incl_tran; [|exact I6]; rewrite E5; apply cu_incl).
+  match goal with |- (forall u v t, In (u, v, t) (edges ?X) -> _) /\ _ => set (tf := X) end.
+  assert (Hf : (forall u v t, In (u, v, t) (edges tf) -> In (u, v, t) (edges t6) \/ (u = f /\ fin_tgt t4 v)) /\ incl (edges t6) (edges tf)).
+  { unfold tf. destruct (first_finally outer) as [o|] eqn:Eo.
+    - split; [|apply cu_incl]. intros u v t Hin. destruct (cu_in _ _ _ _ _ Hin) as [H|H]; [left; exact H|]. inversion H; subst. right. split; [reflexivity|].
+      destruct (first_finally_in _ _ Eo) as (x & Hx & Hfx). right. left. exists x. split; [exact Hx|left; exact Hfx].
+    - destruct outer as [|oc ocs] eqn:Eou.
+      + split; [|apply cu_incl]. intros u v t Hin. destruct (cu_in _ _ _ _ _ Hin) as [H|H]; [left; exact H|]. inversion H; subst. right. split; [reflexivity|left; reflexivity].
+      + split; [|apply cau_incl]. intros u v t Hin. destruct (cau_in _ _ _ _ _ Hin) as [H|(b & Hb & H)]; [left; exact H|]. inversion H; subst. right. split; [reflexivity|].
+        right. left. exists oc. split; [change (In oc outer); rewrite Eou; left; reflexivity|right; exact Hb]. }
+  destruct Hf as (Bf & If). clearbody tf.
+  split; [|split; [|split]].
+  - intros u v t Hin. destruct (Bf u v t Hin) as [H|H]; [apply B6; exact H|right; exact H].
+  - eapply incl_tran; [exact I46|exact If].
+  - destruct Hret as (ty & Hty). exists ty. apply If. exact Hty.
+  - intros lp Hlp Hle. destruct (K6 lp Hlp Hle) as (ty & Hty). exists ty. apply If. exact Hty.
+Qed.
+
+Lemma new_blocks_klt n : forall s, klt s -> klt (snd (new_blocks s n)) /\ length (fst (new_blocks s n)) = n.
+Proof.
+  induction n as [|n IH]; intros s K; [split; [exact K|reflexivity]|]. cbn [new_blocks]. rewrite new_block_eq.
+  destruct (IH (nb s) (klt_nb _ K)) as (H1 & H2). destruct (new_blocks (nb s) n) as [l s2]. cbn [fst snd length] in *.
+  split; [exact H1|congruence].
+Qed.
+
+(* ---- try: the body and the handlers, with the exception context [ctx] pushed ---- *)
+Definition TB_out (s t7 : st) (tryb nat afe : N) (hbs : list N) (l l1 : lam) (body : block) (hs : arms) (s11 : st) (l3 : lam) : Prop :=
+  let L := l (cur s) in let rb := flow_block L body in let rh := flow_arms L hs in
+  agree (next t7) l1 l3 /\ mid anyb t7 s11 /\ loops s11 = loops t7 /\ excs s11 = excs t7 /\ klt s11 /\ cur s11 < next s11 /\
+  next t7 <= next s11 /\
+  ((L = true -> ctx_ok l s) -> (rk rb || rk rh = true -> brk_ok l s) -> closed l1 (edges t7) -> closed l3 (edges s11)) /\
+  (forall E, incl (edges s11) E -> (L = true -> reach E tryb) ->
+     (forall b0, next t7 <= b0 -> b0 < next s11 -> l3 b0 = true -> reach E b0) /\
+     (rn rb = true -> reach E nat) /\ (rn rh = true -> reach E afe) /\ (forall h, In h hbs -> L = true -> reach E h) /\
+     (rk rb || rk rh = true -> noproc t7 -> forall t0, brk_t t7 = Some t0 -> reach E t0) /\
+     (L = true -> rn rb = false -> forall g, Cfin g t7 -> reach E g)) /\
+  (forall k e b0, placed s11 k e b0 -> placed t7 k e b0 \/ k = 0 \/
+     (In (k, l3 b0) (rmarks rb ++ rmarks rh) /\ In (k, e) (spans_block body ++ spans_arms hs))) /\
+  (forall k m, In (k, m) (rmarks rb ++ rmarks rh) -> In k (elif_block body ++ elif_arms hs) \/ exists e b0, placed s11 k e b0 /\ l3 b0 = m) /\
+  (forall k e b0, placed t7 k e b0 -> placed s11 k e b0).
+
+Lemma S_try_body s t7 tryb nat afe hbs finb l l1 inl body hs :
+  S_block body -> S_handlers hs -> inv s ->
+  mid anyb s t7 -> wfb t7 -> klt t7 -> loops t7 = loops s ->
+  excs t7 = {| x_finally := finb; x_handlers := hbs; x_processing := false |} :: excs s ->
+  next s <= tryb -> tryb < next t7 -> nat < next t7 -> afe < next t7 -> length hbs = arms_length hs ->
+  (forall h, In h hbs -> next s <= h /\ h < next t7 /\ h <> tryb) ->
+  (forall f, finb = Some f -> next s <= f /\ f < next t7 /\ f <> tryb /\ ~ In f hbs) ->
+  agree (next s) l l1 -> l1 tryb = l (cur s) -> (forall h, In h hbs -> l1 h = l (cur s)) -> (forall f, finb = Some f -> l1 f = l (cur s)) ->
+  (rn (flow_block (l (cur s)) body) = true -> l1 nat = true) -> (rn (flow_arms (l (cur s)) hs) = true -> l1 afe = true) ->
+  lok_block inl body = true -> lok_arms inl hs = true -> (inl = true -> loops s <> []) ->
+  exists l3, TB_out s t7 tryb nat afe hbs l l1 body hs
+    (process_handlers' (connect_all (connect (process_block' (set_cur t7 tryb) body)
+        (cur (process_block' (set_cur t7 tryb) body)) nat ENormal) tryb hbs EException) hs hbs afe) l3.
+Proof.
+  intros Sb Sh I M7 Wb7 K7 L7 X7 Ht1 Ht2 Hnat Hafe Hlen Hhb Hfb A1 Hlt Hlh Hlf Hln Hla Hlok1 Hlok2 Hinl.
+  set (L := l (cur s)) in *. set (rb := flow_block L body) in *. set (rh := flow_arms L hs) in *.
+  pose proof (i_wfb _ I) as Wb. pose proof (m_next _ _ _ M7) as N7.
+  set (ctx := {| x_finally := finb; x_handlers := hbs; x_processing := false |}) in *.
+  assert (I7 : inv (set_cur t7 tryb)).
+  { split; [apply (wfb_mid anyb t7); [apply mid_set_cur, mid_refl_b; exact Wb7|exact Wb7|reflexivity|reflexivity]|exact Ht2|exact K7|].
+    autorewrite with bst. rewrite X7. intros x f [<-|Hx] Hp Hf.
+    - cbn [ctx x_finally] in Hf. destruct (Hfb f Hf) as (_ & _ & Q & _). exact Q.
+    - destruct (wb_fin _ Wb x Hx) as (Q & _). specialize (Q f Hf). flia. }
+  assert (Hctx7 : forall l0, agree (next s) l l0 -> l0 tryb = L -> (forall h, In h hbs -> l0 h = L) -> (forall f, finb = Some f -> l0 f = L) ->
+                  forall t, loops t = loops t7 -> excs t = excs t7 -> L = true -> ctx_ok l s -> ctx_ok l0 t).
+  { intros l0 A0 _ Hh0 Hf0 t Lt Xt HL (Q1 & Q2 & Q3 & Q4). unfold ctx_ok. rewrite Lt, Xt, L7, X7. repeat split.
+    - rewrite (A0 exit_id) by (pose proof (wb_two _ Wb); unfold exit_id; flia). exact Q1.
+    - intros x f [<-|Hx] Hf; [cbn [ctx x_finally] in Hf; rewrite (Hf0 f Hf); exact HL|].
+      destruct (wb_fin _ Wb x Hx) as (Q & _). rewrite (A0 f) by (apply Q; exact Hf). eapply Q2; eauto.
+    - intros x h [<-|Hx] Hh'; [cbn [ctx x_handlers] in Hh'; rewrite (Hh0 h Hh'); exact HL|].
+      destruct (wb_fin _ Wb x Hx) as (_ & Q). rewrite (A0 h) by (apply Q; exact Hh'). eapply Q3; eauto.
+    - intros lp Hlp. destruct (wb_loops _ Wb lp Hlp) as (Q & _). rewrite (A0 _ Q). apply Q4. exact Hlp. }
+  destruct (Sb (set_cur t7 tryb) l1 inl I7 Hlok1) as (l2 & A2 & F8 & C8 & So8 & Co8 & Da8 & Db8 & Dc8).
+  { autorewrite with bst. rewrite L7. exact Hinl. }
+  autorewrite with bst in *. rewrite Hlt in *. fold rb in C8, So8, Co8, Da8, Db8.
+  set (s8 := process_block' (set_cur t7 tryb) body) in *.
+  pose proof (inv_lframe _ _ I7 F8) as I8. pose proof (lf_curlt _ _ F8) as Hc8.
+  pose proof (m_next _ _ _ (lf_mid _ _ F8)) as N8. autorewrite with bst in N8.
+  assert (L8 : loops s8 = loops t7) by (rewrite (lf_loops _ _ F8); reflexivity).
+  assert (X8 : excs s8 = excs t7) by (rewrite (lf_excs _ _ F8); reflexivity).
+  set (s10 := connect_all (connect s8 (cur s8) nat ENormal) tryb hbs EException).
+  assert (M10 : mid anyb t7 s10).
+  { apply mid_connect_all; [apply mid_connect; [|left; exact Logic.I|exact Hc8|flia]|left; exact Logic.I|uflia|].
+    - apply (mid_transA _ anyb t7 (set_cur t7 tryb)); [apply mid_set_cur, mid_refl_b; exact Wb7|apply F8|intros; left; exact Logic.I].
+    - intros h Hh'. destruct (Hhb h Hh') as (_ & Q & _). uflia. }
+  assert (N10 : next s10 = next s8) by (unfold s10; uflia).
+  assert (L10 : loops s10 = loops t7) by (unfold s10; autorewrite with bst; exact L8).
+  assert (X10 : excs s10 = excs t7) by (unfold s10; autorewrite with bst; exact X8).
+  assert (E10 : edges s10 = (edges s8 ++ [(cur s8, nat, ENormal)]) ++ map (fun x => (tryb, x, EException)) hbs).
+  { unfold s10. rewrite edges_connect_all. reflexivity. }
+  assert (I10 : inv s10).
+  { split; [apply (wfb_mid anyb t7); [exact M10|exact Wb7|exact L10|exact X10]|unfold s10; autorewrite with bst; flia
+           |unfold s10; apply klt_connect_all, klt_connect; exact (lf_klt _ _ F8)|].
+    rewrite X10. unfold s10. autorewrite with bst. intros x f Hx Hp Hf. pose proof (i_fincur _ I8 x f) as Q. rewrite X8 in Q. exact (Q Hx Hp Hf). }
+  destruct (Sh s10 hbs afe l2 L inl I10 Hlen) as (l3 & HO); try assumption; try (rewrite N10; flia).
+  { intros h Hh'. destruct (Hhb h Hh') as (Q1 & Q2 & Q3). rewrite N10. split; [flia|]. split; [rewrite (A2 h Q2); apply Hlh; exact Hh'|].
+    rewrite X10, X7. intros x f [<-|Hx] Hp Hf.
+    - cbn [ctx x_finally] in Hf. destruct (Hfb f Hf) as (_ & _ & _ & Q). intros ->. exact (Q Hh').
+    - destruct (wb_fin _ Wb x Hx) as (Q & _). specialize (Q f Hf). flia. }
+  { rewrite L10, L7. exact Hinl. }
+  fold rh in HO. set (s11 := process_handlers' s10 hs hbs afe) in *.
+  destruct HO as (A3 & M11 & L11 & X11 & K11 & N11 & C11 & So11 & Co11 & Da11 & Db11 & Dc11). fold rh in So11, Co11, Da11, Db11.
+  rewrite N10 in *.
+  assert (Ag2 : agree (next s) l l2) by (intros b0 Hb0; rewrite (A2 b0) by flia; apply A1; exact Hb0).
+  exists l3. unfold TB_out. cbv zeta. fold L rb rh.
+  split; [intros b0 Hb0; rewrite (A3 b0) by flia; apply A2; exact Hb0|].
+  split; [apply (mid_transA _ anyb t7 s10); [exact M10|exact M11|intros; left; exact Logic.I]|].
+  split; [congruence|]. split; [congruence|]. split; [exact K11|]. split; [exact C11|]. split; [flia|].
+  split; [|split; [|split; [|split]]].
+  - intros Hctx Hb Cl. apply So11.
+    + intro HL. apply (Hctx7 l2); try assumption.
+      * rewrite (A2 tryb Ht2). exact Hlt.
+      * intros h Hh'. destruct (Hhb h Hh') as (_ & Q & _). rewrite (A2 h Q). apply Hlh. exact Hh'.
+      * intros f Hf. destruct (Hfb f Hf) as (_ & Q & _). rewrite (A2 f Q). apply Hlf. exact Hf.
+      * apply Hctx. exact HL.
+    + intros Hk lp Hlp. rewrite L10, L7 in Hlp.
+      assert (Hin : In lp (loops s)) by (destruct (loops s); [discriminate|inversion Hlp; left; reflexivity]).
+      destruct (wb_loops _ Wb lp Hin) as (_ & Q & _). rewrite (Ag2 _ Q). apply Hb; [rewrite Hk; apply orb_true_r|exact Hlp].
+    + intro Hn. rewrite (A2 afe Hafe). apply Hla. exact Hn.
+    + rewrite E10. intros u v t Hin Hu. apply in_app_or in Hin. destruct Hin as [Hin|Hin].
+      * revert u v t Hin Hu. fold (closed l2 (edges s8 ++ [(cur s8, nat, ENormal)])). rewrite closed_snoc. split.
+        -- apply So8; [| |exact Cl].
+           ++ intro HL. apply (Hctx7 l1); try assumption; [reflexivity|reflexivity|apply Hctx; exact HL].
+           ++ intros Hk lp Hlp. autorewrite with bst in Hlp. rewrite L7 in Hlp.
+              assert (Hin : In lp (loops s)) by (destruct (loops s); [discriminate|inversion Hlp; left; reflexivity]).
+              destruct (wb_loops _ Wb lp Hin) as (_ & Q & _). rewrite (A1 _ Q). apply Hb; [rewrite Hk; reflexivity|exact Hlp].
+        -- rewrite C8, (A2 nat Hnat). exact Hln.
+      * apply in_map_iff in Hin. destruct Hin as (h & Heq & Hh'). injection Heq as <- <- <-. destruct (Hhb h Hh') as (_ & Q & _).
+        rewrite (A2 h Q), (Hlh h Hh'). rewrite (A2 tryb Ht2), Hlt in Hu. exact Hu.
+  - intros E HE HR.
+    assert (HE10 : incl (edges s10) E).
+    { destruct (m_edges _ _ _ M11) as (D & ED & _). intros x Hx. apply HE. rewrite ED. apply in_or_app. left. exact Hx. }
+    assert (HE8 : incl (edges s8) E) by (intros x Hx; apply HE10; rewrite E10; apply in_or_app; left; apply in_or_app; left; exact Hx).
+    destruct (Co8 E HE8 HR) as (P4 & P2 & P3).
+    assert (P1 : rn rb = true -> reach E (cur s8)).
+    { intro Hn. destruct (lf_cur _ _ F8) as [Q|Q]; autorewrite with bst in Q.
+      - rewrite Q. apply HR. apply (rn_block_le _ _ Hn).
+      - apply P4; [exact Q|exact Hc8|]. rewrite C8. exact Hn. }
+    assert (HRh : forall h, In h hbs -> L = true -> reach E h).
+    { intros h Hh' HL. eapply reach_step; [apply HR; exact HL|]. apply HE10. rewrite E10. apply in_or_app. right.
+      apply in_map_iff. exists h. split; [reflexivity|exact Hh']. }
+    destruct (Co11 E HE HRh) as (P4' & P1' & P2').
+    split; [|split; [|split; [|split; [exact HRh|split]]]].
+    + intros b0 H1 H2 H3. destruct (N.lt_ge_cases b0 (next s8)) as [Hlt'|Hge].
+      * apply P4; [exact H1|exact Hlt'|]. rewrite <- (A3 b0) by flia. exact H3.
+      * apply P4'; [exact Hge|exact H2|exact H3].
+    + intro Hn. eapply reach_step; [apply P1; exact Hn|]. apply HE10. rewrite E10. apply in_or_app. left. apply in_or_app. right. left. reflexivity.
+    + exact P1'.
+    + intros Hk Hnp t0 Ht0. apply orb_true_iff in Hk. destruct Hk as [Hk|Hk].
+      * apply (P2 Hk); [unfold noproc, in_loop_frames in *; autorewrite with bst; exact Hnp|unfold brk_t, in_loop_frames in *; autorewrite with bst; exact Ht0].
+      * apply (P2' Hk); [apply (noproc_eq t7); assumption|rewrite (brk_t_eq t7); assumption].
+    + intros HL Hn g Hg. apply (P3 HL Hn g). unfold Cfin in *. autorewrite with bst. exact Hg.
+  - intros k e b0 Hp. destruct (Da11 k e b0 Hp) as [Hp0|[Hk|(Hm & Hs)]].
+    + unfold s10 in Hp0. autorewrite with plc in Hp0. destruct (Da8 k e b0 Hp0) as [Hp1|[Hk|(Hm & Hs)]].
+      * left. autorewrite with plc in Hp1. exact Hp1.
+      * right. left. exact Hk.
+      * right. right. split; [apply in_or_app; left|apply in_or_app; left; exact Hs].
+        assert (Hb0 : b0 < next s8) by (apply (placed_lt s8 k e); assumption). rewrite (A3 b0 Hb0). exact Hm.
+    + right. left. exact Hk.
+    + right. right. split; apply in_or_app; right; assumption.
+  - intros k m Hin. apply in_app_or in Hin. destruct Hin as [Hin|Hin].
+    + destruct (Db8 k m Hin) as [He|(e & b0 & Hp & Hm)]; [left; apply in_or_app; left; exact He|].
+      right. exists e, b0. split; [apply Dc11; unfold s10; autorewrite with plc; exact Hp|].
+      assert (Hb0 : b0 < next s8) by (apply (placed_lt s8 k e); assumption). rewrite (A3 b0 Hb0). exact Hm.
+    + destruct (Db11 k m Hin) as [He|H]; [left; apply in_or_app; right; exact He|right; exact H].
+  - intros k e b0 Hp. apply Dc11. unfold s10. autorewrite with plc. apply Dc8. autorewrite with plc. exact Hp.
+Qed.
+
+Lemma new_blocks_blocks n : forall s k e b, placed (snd (new_blocks s n)) k e b <-> placed s k e b.
+Proof.
+  induction n as [|n IH]; intros s k e b; [reflexivity|]. cbn [new_blocks]. rewrite new_block_eq.
+  specialize (IH (nb s) k e b). destruct (new_blocks (nb s) n) as [l s2]. cbn [snd] in *. rewrite IH. apply placed_nb.
+Qed.
+
+(* the state of a try statement after its blocks are created and its exception context is pushed *)
+Lemma try_setup_sim s t5 n finb hbs s6 :
+  inv s -> mid anyb s t5 -> klt t5 -> edges t5 = edges s ++ [(cur s, next s, ENormal)] -> loops t5 = loops s -> excs t5 = excs s ->
+  (forall k e b, placed t5 k e b <-> placed s k e b) ->
+  N.succ (next s) < next t5 -> (forall f, finb = Some f -> f < next t5) -> new_blocks t5 n = (hbs, s6) ->
+  let ctx := {| x_finally := finb; x_handlers := hbs; x_processing := false |} in
+  let t7 := set_excs s6 (ctx :: excs s6) in
+  mid anyb s t7 /\ wfb t7 /\ klt t7 /\ next t7 = next t5 + N.of_nat n /\ loops t7 = loops s /\ excs t7 = ctx :: excs s /\
+  edges t7 = edges s ++ [(cur s, next s, ENormal)] /\ length hbs = n /\ (forall h, In h hbs <-> next t5 <= h < next t7) /\
+  (forall k e b, placed t7 k e b <-> placed s k e b).
+Proof.
+  intros I M5 K5 E5 L5 X5 P5 H5 Hf Enb ctx t7. pose proof (i_wfb _ I) as Wb.
+  assert (Wb5 : wfb t5) by (apply (wfb_mid _ _ _ M5 Wb); assumption).
+  pose proof (new_blocks_spec n t5 Wb5) as Hs. destruct (new_blocks_klt n t5 K5) as (K6 & Hlen).
+  pose proof (new_blocks_blocks n t5) as Pb. rewrite Enb in Hs, K6, Hlen, Pb. cbn [fst snd] in Hs, K6, Hlen, Pb.
+  destruct Hs as (I1 & I2 & I3 & I4 & I5 & I6 & I7 & I8).
+  assert (M7 : mid anyb s t7).
+  { apply mid_set_excs. apply (mid_transA _ anyb s t5); [exact M5|apply I6|intros; left; exact Logic.I]. }
+  assert (N7 : next t7 = next t5 + N.of_nat n) by exact I1.
+  assert (X7 : excs t7 = ctx :: excs s) by (unfold t7; autorewrite with bst; rewrite I4, X5; reflexivity).
+  pose proof (m_next _ _ _ M5) as Hn5.
+  split; [exact M7|]. split; [|split; [apply klt_set_excs; exact K6|split; [exact N7|split; [|split; [exact X7|split; [|split; [exact Hlen|split]]]]]]].
+  - split.
+    + pose proof (wb_two _ Wb). lia.
+    + apply M7.
+    + apply M7.
+    + rewrite X7. intros x [<-|Hx].
+      * cbn [x_finally x_handlers ctx]. split; [intros f Hfe; specialize (Hf f Hfe); lia|]. intros h Hh. apply I8 in Hh. lia.
+      * destruct (wb_fin _ Wb x Hx) as (Q1 & Q2). split; intros; [specialize (Q1 _ H)|specialize (Q2 _ H)]; lia.
+    + rewrite X7. unfold t7. autorewrite with bst. rewrite I3, L5. intros lp Hlp.
+      destruct (wb_loops _ Wb lp Hlp) as (Q1 & Q2 & Q3). cbn [length]. repeat split; lia.
+  - unfold t7. autorewrite with bst. rewrite I3. exact L5.
+  - unfold t7. autorewrite with bst. rewrite I5. exact E5.
+  - intro h. rewrite N7. apply I8.
+  - intros k e b. unfold t7. autorewrite with plc. rewrite Pb. apply P5.
+Qed.
+
+(* pushing a (non-processing) exception context *)
+Lemma in_loop_push s t7 ctx lp :
+  excs t7 = ctx :: excs s -> (l_excdepth lp <= length (excs s))%nat ->
+  in_loop_frames t7 lp = ctx :: in_loop_frames s lp.
+Proof.
+  intros X Hd. unfold in_loop_frames. rewrite X. cbn [length].
+  replace (S (length (excs s)) - l_excdepth lp)%nat with (S (length (excs s) - l_excdepth lp)) by lia. reflexivity.
+Qed.
+
+Lemma push_noproc s t7 finb hbs :
+  wfb s -> loops t7 = loops s -> excs t7 = {| x_finally := finb; x_handlers := hbs; x_processing := false |} :: excs s ->
+  noproc s -> noproc t7.
+Proof.
+  intros Wb L X Hn. unfold noproc in *. rewrite L. destruct (loops s) as [|lp ls] eqn:El; [exact Logic.I|].
+  destruct (wb_loops _ Wb lp) as (_ & _ & Hd); [rewrite El; left; reflexivity|].
+  rewrite (in_loop_push s t7 _ lp X Hd). intros y [<-|Hy] Hf; [reflexivity|apply Hn; assumption].
+Qed.
+
+Lemma push_brk_none s t7 hbs :
+  wfb s -> loops t7 = loops s -> excs t7 = {| x_finally := None; x_handlers := hbs; x_processing := false |} :: excs s ->
+  brk_t t7 = brk_t s.
+Proof.
+  intros Wb L X. unfold brk_t. rewrite L. destruct (loops s) as [|lp ls] eqn:El; [reflexivity|].
+  destruct (wb_loops _ Wb lp) as (_ & _ & Hd); [rewrite El; left; reflexivity|].
+  rewrite (in_loop_push s t7 _ lp X Hd). reflexivity.
+Qed.
+
+Lemma push_brk_some s t7 f hbs :
+  wfb s -> loops t7 = loops s -> excs t7 = {| x_finally := Some f; x_handlers := hbs; x_processing := false |} :: excs s ->
+  loops s <> [] -> brk_t t7 = Some f.
+Proof.
+  intros Wb L X Hne. unfold brk_t. rewrite L. destruct (loops s) as [|lp ls] eqn:El; [contradiction|].
+  destruct (wb_loops _ Wb lp) as (_ & _ & Hd); [rewrite El; left; reflexivity|].
+  rewrite (in_loop_push s t7 _ lp X Hd). reflexivity.
+Qed.
+
+Lemma push_Cfin_none s t7 hbs g :
+  loops t7 = loops s -> excs t7 = {| x_finally := None; x_handlers := hbs; x_processing := false |} :: excs s ->
+  Cfin g s -> Cfin g t7.
+Proof.
+  intros L X (pre & Y & rest & Ex & Hpre & HY & HP & Hd). exists ({| x_finally := None; x_handlers := hbs; x_processing := false |} :: pre), Y, rest.
+  rewrite X, Ex, L. split; [reflexivity|]. split; [|split; [exact HY|split; [exact HP|exact Hd]]].
+  intros y [<-|Hy]; [reflexivity|apply Hpre; exact Hy].
+Qed.
+
+Lemma push_Cfin_some s t7 hbs f :
+  wfb s -> loops t7 = loops s -> excs t7 = {| x_finally := Some f; x_handlers := hbs; x_processing := false |} :: excs s ->
+  Cfin f t7.
+Proof.
+  intros Wb L X. exists [], {| x_finally := Some f; x_handlers := hbs; x_processing := false |}, (excs s).
+  rewrite X, L. split; [reflexivity|]. split; [intros y []|]. split; [reflexivity|]. split; [reflexivity|].
+  intros lp Hlp. assert (Hin : In lp (loops s)) by (destruct (loops s); [discriminate|inversion Hlp; left; reflexivity]).
+  apply (wb_loops _ Wb lp Hin).
+Qed.
+
+Ltac open_try' :=
+  cbn beta iota delta [process_stmt'] fix match; peel_all ident:(p);
+  match goal with |- context [new_blocks ?t ?n] =>
+    let hbs := fresh "hbs" in let s6 := fresh "s6" in let Enb := fresh "Enb" in
+    destruct (new_blocks t n) as [hbs s6] eqn:Enb end;
+  cbv beta iota; peel_all ident:(p).
+
+(* labelling of the blocks a try statement creates: everything [L] except the exit block *)
+Definition try_lab (s : st) (l : lam) (L X : bool) : lam :=
+  fun b => if N.ltb b (next s) then l b else if N.eqb b (N.succ (next s)) then X else L.
+Lemma try_lab_old s l L X b : b < next s -> try_lab s l L X b = l b.
+Proof. intro H. unfold try_lab. destruct (N.ltb_spec b (next s)); [reflexivity|lia]. Qed.
+Lemma try_lab_exit s l L X : try_lab s l L X (N.succ (next s)) = X.
+Proof. unfold try_lab. destruct (N.ltb_spec (N.succ (next s)) (next s)); [lia|]. rewrite N.eqb_refl. reflexivity. Qed.
+Lemma try_lab_new s l L X b : next s <= b -> b <> N.succ (next s) -> try_lab s l L X b = L.
+Proof.
+  intros H1 H2. unfold try_lab. destruct (N.ltb_spec b (next s)); [lia|]. destruct (N.eqb_spec b (N.succ (next s))); [contradiction|reflexivity].
+Qed.
+
+Lemma S_try_nn k body hs : S_block body -> S_handlers hs -> S_stmt (Try k body hs ONone ONone).
+Proof.
+  intros Sb Sh s l inl I Hlok Hinl. cbn [lok_stmt lok_oblock] in Hlok. rewrite !andb_true_r in Hlok.
+  apply andb_true_iff in Hlok. destruct Hlok as (Hlok1 & Hlok2).
+  set (L := l (cur s)).
+  open_try'. bsimp.
+  pose proof (i_wfb _ I) as Wb. pose proof (i_cur _ I) as Hc. pose proof (wb_two _ Wb) as H2.
+  set (t5 := nb (connect (nb s) (cur s) (next s) ENormal)) in *.
+  assert (M5 : mid anyb s t5) by (apply mid_nb, mid_connect; [apply mid_nb, mid_refl_b; exact Wb|left; exact Logic.I|uflia|uflia]).
+  assert (K5 : klt t5) by (apply klt_nb, klt_connect, klt_nb; exact (i_klt _ I)).
+  assert (N5 : next t5 = N.succ (N.succ (next s))) by reflexivity.
+  destruct (try_setup_sim s t5 (arms_length hs) None hbs s6 I M5 K5 eq_refl eq_refl eq_refl) as (M7 & Wb7 & K7 & N7 & L7 & X7 & E7 & Hlen & Hh & P7);
+    [intros k' e' b; unfold t5; autorewrite with plc; reflexivity|rewrite N5; flia|discriminate|exact Enb|].
+  set (t7 := set_excs s6 ({| x_finally := None; x_handlers := hbs; x_processing := false |} :: excs s6)) in *.
+  rewrite N5 in *.
+  set (rb := flow_block L body). set (rh := flow_arms L hs).
+  set (l1 := try_lab s l L (rn rb || rn rh)).
+  assert (A1 : agree (next s) l l1) by (intros b Hb; apply try_lab_old; exact Hb).
+  subst s8p.
+  destruct (S_try_body s t7 (next s) (N.succ (next s)) (N.succ (next s)) hbs None l l1 inl body hs Sb Sh I M7 Wb7 K7 L7 X7) as (l3 & TB);
+    try assumption; try flia; try discriminate.
+  { intros h Hh'. apply Hh in Hh'. flia. }
+  { unfold l1. apply try_lab_new; flia. }
+  { intros h Hh'. apply Hh in Hh'. unfold l1. apply try_lab_new; flia. }
+  { intro Hn. unfold l1. rewrite try_lab_exit. unfold rb, L. rewrite Hn. reflexivity. }
+  { intro Hn. unfold l1. rewrite try_lab_exit. unfold rh, L. rewrite Hn. apply orb_true_r. }
+  rewrite <- Es11p in TB.
+  destruct TB as (A3 & M11 & L11 & X11 & K11 & C11 & N11 & So & Co & Da & Db & Dc). fold L rb rh in So, Co, Da, Db.
+  rewrite X11, X7. cbn [tl].
+  exists l3. split; [intros b Hb; rewrite (A3 b) by flia; apply A1; exact Hb|].
+  cbn [flow_stmt flow_oblock opt_n rn rk rmarks spans_stmt spans_oblock elif_stmt elif_oblock]. fold L rb rh. rewrite !orb_false_r, !app_nil_r.
+  split; [|split; [|split; [|split; [|split; [|split]]]]].
+  - apply lframe_mid; autorewrite with bst; try flia.
+    + apply mid_set_excs. apply (mid_transA _ anyb s t7); [exact M7|exact M11|intros; left; exact Logic.I].
+    + rewrite L11. exact L7.
+    + reflexivity.
+    + apply klt_set_excs. exact K11.
+  - autorewrite with bst. rewrite (A3 (N.succ (next s))) by flia. unfold l1. apply try_lab_exit.
+  - intros Hctx Hb Cl. autorewrite with bst. apply So; [exact Hctx|exact Hb|]. rewrite E7, closed_snoc. split.
+    + apply (closed_ext l); assumption.
+    + unfold l1. rewrite try_lab_old by exact Hc. rewrite try_lab_new by flia. exact (fun H => H).
+  - intros E HE HR. autorewrite with bst in HE.
+    assert (HRt : L = true -> reach E (next s)).
+    { intro HL. eapply reach_step; [apply HR; exact HL|]. apply HE. destruct (m_edges _ _ _ M11) as (D & ED & _). rewrite ED, E7.
+      apply in_or_app. left. apply in_or_app. right. left. reflexivity. }
+    destruct (Co E HE HRt) as (P4 & P1 & P1h & PH & P2 & P3). autorewrite with bst. split; [|split].
+    + intros b Hb1 Hb2 Hb3. destruct (N.lt_ge_cases b (next t7)) as [Hlt|Hge]; [|apply P4; assumption].
+      rewrite (A3 b Hlt) in Hb3. destruct (N.eq_dec b (N.succ (next s))) as [->|Hne].
+      * unfold l1 in Hb3. rewrite try_lab_exit in Hb3. apply orb_true_iff in Hb3. destruct Hb3 as [Hb3|Hb3]; [apply P1|apply P1h]; exact Hb3.
+      * unfold l1 in Hb3. rewrite try_lab_new in Hb3 by assumption.
+        destruct (N.eq_dec b (next s)) as [->|Hne']; [apply HRt; exact Hb3|].
+        apply PH; [apply Hh; flia|exact Hb3].
+    + intros Hk Hnp t0 Ht0. apply (P2 Hk); [apply (push_noproc s t7 None hbs); assumption|rewrite (push_brk_none s t7 hbs); assumption].
+    + intros HL Hn g Hg. apply orb_false_iff in Hn. destruct Hn as (Hn & _). apply (P3 HL Hn g). apply (push_Cfin_none s t7 hbs); assumption.
+  - intros k' e' b Hp. autorewrite with plc in Hp. destruct (Da k' e' b Hp) as [Hp0|[Hk|Hm]]; [left; apply P7; exact Hp0|right; left; exact Hk|right; right; exact Hm].
+  - intros k' m Hin. destruct (Db k' m Hin) as [He|(e' & b & Hp & Hm)].
+    + left. exact He.
+    + right. exists e', b. split; [autorewrite with plc; exact Hp|exact Hm].
+  - intros k' e' b Hp. autorewrite with plc. apply Dc. apply P7. exact Hp.
+Qed.
+
+Lemma ctx_push_ok s l l0 t finb hbs p :
+  inv s -> agree (next s) l l0 -> (forall h, In h hbs -> l0 h = true) -> (forall f, finb = Some f -> l0 f = true) ->
+  loops t = loops s -> excs t = {| x_finally := finb; x_handlers := hbs; x_processing := p |} :: excs s ->
+  ctx_ok l s -> ctx_ok l0 t.
+Proof.
+  intros I A0 Hh0 Hf0 Lt Xt (Q1 & Q2 & Q3 & Q4). pose proof (i_wfb _ I) as Wb. unfold ctx_ok. rewrite Lt, Xt. repeat split.
+  - rewrite (A0 exit_id) by (pose proof (wb_two _ Wb); unfold exit_id; lia). exact Q1.
+  - intros x f [<-|Hx] Hf; [cbn [x_finally] in Hf; exact (Hf0 f Hf)|].
+    destruct (wb_fin _ Wb x Hx) as (Q & _). rewrite (A0 f) by (apply Q; exact Hf). eapply Q2; eauto.
+  - intros x h [<-|Hx] Hh'; [cbn [x_handlers] in Hh'; exact (Hh0 h Hh')|].
+    destruct (wb_fin _ Wb x Hx) as (_ & Q). rewrite (A0 h) by (apply Q; exact Hh'). eapply Q3; eauto.
+  - intros lp Hlp. destruct (wb_loops _ Wb lp Hlp) as (Q & _). rewrite (A0 _ Q). apply Q4. exact Hlp.
+Qed.
+
+Lemma brk_push_ok s l l0 t : inv s -> agree (next s) l l0 -> loops t = loops s -> brk_ok l s -> brk_ok l0 t.
+Proof.
+  intros I A0 Lt B lp Hlp. rewrite Lt in Hlp.
+  assert (Hin : In lp (loops s)) by (destruct (loops s); [discriminate|inversion Hlp; left; reflexivity]).
+  destruct (wb_loops _ (i_wfb _ I) lp Hin) as (_ & Q & _). rewrite (A0 _ Q). apply B. exact Hlp.
+Qed.
+
+Lemma first_finally_noproc xs : (forall y, In y xs -> x_finally y <> None -> x_processing y = false) -> first_finally xs = jump_target xs.
+Proof.
+  induction xs as [|x r IH]; intro H; [reflexivity|]. cbn [first_finally jump_target].
+  assert (IH' : first_finally r = jump_target r) by (apply IH; intros y Hy; apply H; right; exact Hy).
+  destruct (x_finally x) as [f|] eqn:Ef.
+  - rewrite (H x (or_introl eq_refl)) by (rewrite Ef; discriminate). reflexivity.
+  - destruct (x_processing x); exact IH'.
+Qed.
+
+Lemma first_finally_Cfin pre X rest f : (forall y, In y pre -> x_finally y = None) -> x_finally X = Some f -> first_finally (pre ++ X :: rest) = Some f.
+Proof.
+  intros Hpre HX. induction pre as [|y pre IH]; cbn [app first_finally]; [rewrite HX; reflexivity|].
+  rewrite (Hpre y (or_introl eq_refl)). apply IH. intros z Hz. apply Hpre. right. exact Hz.
+Qed.
+
+Lemma fin_prop_blocks t4 f : blocks (fin_prop t4 f) = blocks t4.
+Proof.
+  unfold fin_prop. cbv zeta.
+  set (t5 := match first_finally (tl (excs t4)) with
+             | Some o => connect_unless t4 f o EReturn
+             | None => connect_unless t4 f exit_id EReturn
+             end).
+  assert (B5 : blocks t5 = blocks t4) by (unfold t5; destruct (first_finally _); apply cu_blocks).
+  match goal with |- context [connect_unless ?t f _ EException] => set (t6 := t) end.
+  assert (B6 : blocks t6 = blocks t4).
+  { unfold t6. destruct (loops t5); [exact B5|]. destruct (Nat.leb _ _); [|exact B5].
+    destruct (first_finally (firstn _ _)); rewrite !cu_blocks; exact B5. }
+  clearbody t6. destruct (first_finally (tl (excs t4))).
+  - rewrite cu_blocks. exact B6.
+  - destruct (tl (excs t4)); [rewrite cu_blocks; exact B6|]. destruct (cau_proj t6 f (x_handlers e) EException) as (_ & _ & _ & _ & Q).
+    rewrite Q. exact B6.
+Qed.
+
+(* ---- try: the finally block, its body and its propagation edges ---- *)
+Definition TF_out (s s12 : st) (f : N) (hbs : list N) (l l2 : lam) (fb : block) (sF : st) (l3 : lam) : Prop :=
+  let L := l (cur s) in let rf := flow_block L fb in let exitb := N.succ (next s) in
+  agree (next s12) l2 l3 /\ mid anyb s12 sF /\ loops sF = loops s /\
+  excs sF = {| x_finally := Some f; x_handlers := hbs; x_processing := false |} :: excs s /\ klt sF /\ next s12 <= next sF /\
+  ((L = true -> ctx_ok l s) -> (L = true -> brk_ok l s) -> closed l2 (edges s12) -> closed l3 (edges sF)) /\
+  (forall E, incl (edges sF) E -> (L = true -> reach E f) ->
+     (forall b0, next s12 <= b0 -> b0 < next sF -> l3 b0 = true -> reach E b0) /\
+     (rn rf = true -> reach E exitb) /\
+     (L = true -> noproc s -> forall t0, brk_t s = Some t0 -> reach E t0) /\
+     (L = true -> forall g, Cfin g s -> reach E g)) /\
+  (forall k e b0, placed sF k e b0 -> placed s12 k e b0 \/ k = 0 \/ (In (k, l3 b0) (rmarks rf) /\ In (k, e) (spans_block fb))) /\
+  (forall k m, In (k, m) (rmarks rf) -> In k (elif_block fb) \/ exists e b0, placed sF k e b0 /\ l3 b0 = m) /\
+  (forall k e b0, placed s12 k e b0 -> placed sF k e b0).
+
+Lemma S_try_fin s s12 f hbs l l2 inl fb :
+  S_block fb -> inv s -> mid anyb s s12 -> klt s12 -> loops s12 = loops s ->
+  excs s12 = {| x_finally := Some f; x_handlers := hbs; x_processing := false |} :: excs s ->
+  next s <= f -> f < next s12 -> f <> N.succ (next s) -> N.succ (next s) < next s12 -> (forall h, In h hbs -> h < next s12) ->
+  agree (next s) l l2 -> l2 f = l (cur s) -> (forall h, In h hbs -> l2 h = l (cur s)) ->
+  l2 (N.succ (next s)) = rn (flow_block (l (cur s)) fb) ->
+  lok_block inl fb = true -> (inl = true -> loops s <> []) ->
+  let t2 := process_block' (set_processing (set_cur s12 f) true) fb in
+  let t3 := set_processing t2 false in
+  exists l3, TF_out s s12 f hbs l l2 fb (fin_prop (connect t3 (cur t3) (N.succ (next s)) ENormal) f) l3.
+Proof.
+  intros Sf I M12 K12 L12 X12 Hf1 Hf2 Hf3 Hex Hhb A2 Hlf Hlh Hlx Hlok Hinl.
+  set (L := l (cur s)) in *. set (rf := flow_block L fb) in *. set (exitb := N.succ (next s)) in *.
+  pose proof (i_wfb _ I) as Wb. pose proof (m_next _ _ _ M12) as N12.
+  set (ctxF := {| x_finally := Some f; x_handlers := hbs; x_processing := false |}) in *.
+  set (ctxT := {| x_finally := Some f; x_handlers := hbs; x_processing := true |}).
+  assert (Esp : set_processing (set_cur s12 f) true = set_cur (set_excs s12 (ctxT :: excs s)) f).
+  { rewrite (set_processing_eq (set_cur s12 f) true _ _ X12). reflexivity. }
+  rewrite Esp. set (t1 := set_excs s12 (ctxT :: excs s)).
+  assert (Wb12 : wfb s12).
+  { split; [pose proof (wb_two _ Wb); flia|apply M12|apply M12| |].
+    - rewrite X12. intros x [<-|Hx]; [cbn [ctxF x_finally x_handlers]; split; [intros g Hg; inversion Hg; subst; exact Hf2|exact Hhb]|].
+      destruct (wb_fin _ Wb x Hx) as (Q1 & Q2). split; intros; [specialize (Q1 _ H)|specialize (Q2 _ H)]; flia.
+    - rewrite X12, L12. intros lp Hlp. destruct (wb_loops _ Wb lp Hlp) as (Q1 & Q2 & Q3). cbn [length]. repeat split; flia. }
+  assert (It1 : inv (set_cur t1 f)).
+  { split; [|exact Hf2|apply klt_set_cur, klt_set_excs; exact K12|].
+    - pose proof (wfb_set_proc s12 true _ _ Wb12 X12) as Q. cbn [ctxF x_finally x_handlers] in Q.
+      apply (wfb_mid anyb t1); [apply mid_set_cur, mid_refl_b; exact Q|exact Q|reflexivity|reflexivity].
+    - unfold t1. autorewrite with bst. intros x g [<-|Hx] Hp Hg; [discriminate|].
+      destruct (wb_fin _ Wb x Hx) as (Q & _). specialize (Q g Hg). flia. }
+  destruct (Sf (set_cur t1 f) l2 inl It1 Hlok) as (l3 & A3 & F & C & So & Co & Da & Db & Dc).
+  { unfold t1. autorewrite with bst. rewrite L12. exact Hinl. }
+  autorewrite with bst in *. rewrite Hlf in *. fold rf in C, So, Co, Da, Db.
+  intros t2 t3. fold t1 in t2. fold t2 in A3, F, C, So, Co, Da, Db, Dc.
+  assert (Nt1 : next t1 = next s12) by reflexivity. rewrite Nt1 in *.
+  pose proof (inv_lframe _ _ It1 F) as I2. pose proof (lf_curlt _ _ F) as Hc2.
+  pose proof (m_next _ _ _ (lf_mid _ _ F)) as N2. unfold t1 in N2. autorewrite with bst in N2.
+  assert (L2 : loops t2 = loops s) by (rewrite (lf_loops _ _ F); unfold t1; autorewrite with bst; exact L12).
+  assert (X2 : excs t2 = ctxT :: excs s) by (rewrite (lf_excs _ _ F); reflexivity).
+  assert (E3 : t3 = set_excs t2 (ctxF :: excs s)).
+  { unfold t3. rewrite (set_processing_eq t2 false _ _ X2). reflexivity. }
+  rewrite E3. clear E3 t3. set (t3 := set_excs t2 (ctxF :: excs s)).
+  set (t4 := connect t3 (cur t3) exitb ENormal).
+  assert (M2 : mid anyb s12 t2).
+  { apply (mid_transA _ anyb s12 (set_cur t1 f)); [apply mid_set_cur, mid_set_excs, mid_refl_b; exact Wb12|apply F|intros; left; exact Logic.I]. }
+  assert (M4 : mid anyb s12 t4).
+  { apply mid_connect; [apply mid_set_excs; exact M2|left; exact Logic.I|unfold t3; autorewrite with bst; exact Hc2|unfold t3; autorewrite with bst; flia]. }
+  assert (Wb4 : wfb t4).
+  { pose proof (wfb_set_proc t2 false _ _ (i_wfb _ I2) X2) as Q. cbn [ctxT x_finally x_handlers] in Q.
+    apply (wfb_mid anyb t3); [apply mid_connect; [apply mid_refl_b; exact Q|left; exact Logic.I|unfold t3; autorewrite with bst; exact Hc2|unfold t3; autorewrite with bst; flia]
+                             |exact Q|reflexivity|reflexivity]. }
+  assert (N4 : next t4 = next t2) by reflexivity.
+  destruct (fin_prop_spec t4 f Wb4) as (M5 & N5 & C5 & L5 & X5); [rewrite N4; flia|].
+  destruct (fin_prop_edges t4 f) as (Ed & Inc & Ret & Brk).
+  set (sF := fin_prop t4 f) in *.
+  assert (X4 : excs t4 = ctxF :: excs s) by reflexivity.
+  assert (L4 : loops t4 = loops s) by (unfold t4, t3; autorewrite with bst; exact L2).
+  exists l3. unfold TF_out. cbv zeta. fold L rf exitb ctxF.
+  split; [exact A3|]. split; [apply (mid_transA _ anyb s12 t4); [exact M4|apply (mid_weaken (eq f)); [intros; left; exact Logic.I|exact M5]|intros; left; exact Logic.I]|].
+  split; [rewrite L5; exact L4|]. split; [rewrite X5; exact X4|].
+  split; [|split; [rewrite N5, N4; flia|split; [|split; [|split; [|split]]]]].
+  - apply (klt_eq t4); [unfold sF; rewrite fin_prop_blocks; reflexivity|rewrite N5; apply N.le_refl|].
+    unfold t4, t3. apply klt_connect, klt_set_excs. exact (lf_klt _ _ F).
+  - intros Hctx Hbk Cl u v ty Hin Hu. destruct (Ed u v ty Hin) as [Hin'|(-> & Ht)].
+    + clear Hin. revert u v ty Hin' Hu. fold (closed l3 (edges t4)). unfold t4. autorewrite with bst. rewrite closed_snoc. split.
+      * apply So; [| |exact Cl].
+        -- intro HL. apply (ctx_push_ok s l l2 (set_cur t1 f) (Some f) hbs true I A2); [| |unfold t1; autorewrite with bst; exact L12|reflexivity|apply Hctx; exact HL].
+           ++ intros h Hh. rewrite (Hlh h Hh). exact HL.
+           ++ intros g Hg. inversion Hg; subst. rewrite Hlf. exact HL.
+        -- intro Hk. apply (brk_push_ok s l l2); [exact I|exact A2|unfold t1; autorewrite with bst; exact L12|apply Hbk; apply (rk_block_le _ _ Hk)].
+      * unfold t3. autorewrite with bst. rewrite C. rewrite (A3 exitb) by (unfold exitb; flia). rewrite Hlx. exact (fun H => H).
+    + rewrite (A3 f Hf2), Hlf in Hu. destruct (Hctx Hu) as (Q1 & Q2 & Q3 & Q4). pose proof (Hbk Hu) as Qb.
+      assert (Hv : v < next s /\ l v = true).
+      { destruct Ht as [->|[(x & Hx & [Hxf|Hxh])|(lp & Hlp & [-> | ->])]].
+        - split; [pose proof (wb_two _ Wb); unfold exit_id; flia|exact Q1].
+        - rewrite X4 in Hx. cbn [tl] in Hx. destruct (wb_fin _ Wb x Hx) as (R & _). split; [apply R; exact Hxf|eapply Q2; eauto].
+        - rewrite X4 in Hx. cbn [tl] in Hx. destruct (wb_fin _ Wb x Hx) as (_ & R). split; [apply R; exact Hxh|eapply Q3; eauto].
+        - rewrite L4 in Hlp. assert (Hin2 : In lp (loops s)) by (destruct (loops s); [discriminate|inversion Hlp; left; reflexivity]).
+          destruct (wb_loops _ Wb lp Hin2) as (_ & R & _). split; [exact R|apply Qb; exact Hlp].
+        - rewrite L4 in Hlp. assert (Hin2 : In lp (loops s)) by (destruct (loops s); [discriminate|inversion Hlp; left; reflexivity]).
+          destruct (wb_loops _ Wb lp Hin2) as (R & _). split; [exact R|apply Q4; exact Hin2]. }
+      destruct Hv as (Hv1 & Hv2). rewrite (A3 v) by flia. rewrite (A2 v Hv1). exact Hv2.
+  - intros E HE HR.
+    assert (HE4 : incl (edges t4) E) by (eapply incl_tran; [exact Inc|exact HE]).
+    assert (HE2 : incl (edges t2) E) by (intros x Hx; apply HE4; unfold t4, t3; autorewrite with bst; apply in_or_app; left; exact Hx).
+    destruct (Co E HE2 HR) as (P4 & P2 & P3).
+    assert (P1 : rn rf = true -> reach E (cur t2)).
+    { intro Hn. destruct (lf_cur _ _ F) as [Q|Q]; autorewrite with bst in Q.
+      - rewrite Q. apply HR. apply (rn_block_le _ _ Hn).
+      - apply P4; [unfold t1 in Q; autorewrite with bst in Q; exact Q|exact Hc2|]. rewrite C. exact Hn. }
+    rewrite N5, N4. split; [exact P4|]. split; [|split].
+    + intro Hn. eapply reach_step; [apply P1; exact Hn|]. apply HE4. unfold t4, t3. autorewrite with bst. apply in_or_app. right. left. reflexivity.
+    + intros HL Hnp t0 Ht0. unfold brk_t in Ht0. destruct (loops s) as [|lp ls] eqn:El; [discriminate|]. inversion Ht0; subst t0.
+      destruct (wb_loops _ Wb lp) as (_ & _ & Hd); [try rewrite El; left; reflexivity|].
+      destruct (Brk lp) as (ty & Hty); [rewrite L4; reflexivity|rewrite X4; cbn [length]; flia|].
+      rewrite X4 in Hty. cbn [tl] in Hty. fold (in_loop_frames s lp) in Hty.
+      unfold noproc in Hnp. rewrite El in Hnp. rewrite (first_finally_noproc _ Hnp) in Hty.
+      eapply reach_step; [apply HR; exact HL|]. apply HE. exact Hty.
+    + intros HL g (pre & Y & rest & Ex & Hpre & HY & _). destruct Ret as (ty & Hty). rewrite X4 in Hty. cbn [tl] in Hty.
+      rewrite Ex, (first_finally_Cfin pre Y rest g Hpre HY) in Hty. eapply reach_step; [apply HR; exact HL|]. apply HE. exact Hty.
+  - intros k e b0 Hp. rewrite (placed_blocks_eq t4 sF) in Hp by apply fin_prop_blocks. unfold t4, t3 in Hp. autorewrite with plc in Hp.
+    destruct (Da k e b0 Hp) as [Hp0|[Hk|Hm]]; [left; unfold t1 in Hp0; autorewrite with plc in Hp0; exact Hp0|right; left; exact Hk|right; right; exact Hm].
+  - intros k m Hin. destruct (Db k m Hin) as [He|(e & b0 & Hp & Hm)]; [left; exact He|]. right. exists e, b0. split; [|exact Hm].
+    rewrite (placed_blocks_eq t4 sF) by apply fin_prop_blocks. unfold t4, t3. autorewrite with plc. exact Hp.
+  - intros k e b0 Hp. rewrite (placed_blocks_eq t4 sF) by apply fin_prop_blocks. unfold t4, t3. autorewrite with plc. apply Dc.
+    unfold t1. autorewrite with plc. exact Hp.
 Qed.
